@@ -36,14 +36,14 @@ CHECKS = {
          "Two fox routers holding the same set by different histories must answer every probe alike through Lookup, Reverse and ServeHTTP. No oracle beyond equality, so an alarm is always a real divergence.",
          "probes derived from the pool; sets <= 14 routes (+fan-out)", "6 C07"),
  "C08": ("seq", "exploration", "deterministic simulation: seeded histories + slash-toggled and percent-encoded probes against the reference dispatcher; redirects followed inside the simulation; metamorphic irrelevant-route removal",
-         "Which route is offered as slash-adjusted candidate, with which parameters, what the dispatcher does with it (ignore, redirect 301/308 only for clean non-root paths and never for CONNECT, unmatched) and where Location leads (resolved and served inside the simulation) are compared with the reference; three genuine detection defects of the pinned tree are listed as known findings with structural classifiers, everything else is a violation.",
-         "trusts the reference matcher's trailing-slash rule (toggle the final slash; an added slash must pair with a literal '/' of the pattern); known findings in known_findings.json", "6 C08"),
+         "Which route is offered as slash-adjusted candidate, with which parameters, what the dispatcher does with it (ignore, redirect 301/308 only for clean non-root paths and never for CONNECT, unmatched) and where Location leads (resolved and served inside the simulation) are compared with the reference; the detection defects of the pinned tree were first classified as known findings by structural predicates and then repaired (fix: commits 953495b 8179a1d 758e438); the classifiers remain and report a deviation of those shapes as a violation.",
+         "trusts the reference matcher's trailing-slash rule (toggle the final slash; an added slash must pair with a literal '/' of the pattern)", "6 C08"),
  "C09": ("seq", "exploration", "deterministic simulation: seeded histories over mixed hostname/path-only pools, Host header variants (exact, port, trailing dot, extended, truncated, literals) against the reference host rules; metamorphic host-ignored clause",
          "Whole-host matching is universal over Host strings; the check samples near-miss variants around every registered hostname on trees shaped by histories and compares all entry points with the reference.",
          "hosts lower case; slash-adjusted hostname candidates are judged by C08", "6 C09"),
  "C11": ("seq", "exploration", "deterministic simulation: seeded histories x the four option combinations x methods incl. OPTIONS/'*'/methods without routes against the reference dispatcher (handler kind, Allow as a set, scrubbed context, scope)",
-         "Which special handler answers an unserved request, the exact Allow set and the context it sees are compared with the reference over arbitrary tables; per-method answers that fall in a listed C08 finding are taken from fox and counted.",
-         "Allow composition is judged even where the per-method routing answer is a known C08 finding", "6 C11"),
+         "Which special handler answers an unserved request, the exact Allow set and the context it sees are compared with the reference over arbitrary tables; a per-method answer that deviates in one of the (now repaired) C08 detection shapes is reported under its own class.",
+         "Allow composition is judged on top of per-method routing answers checked against the reference", "6 C11"),
  "C12": ("req+conc", "exploration", "deterministic simulation: token-tagged requests of every shape from 1-3 client tasks plus a tree-replacing writer under the seeded scheduler; every Context getter compared with the current request before and after each yield; clones re-inspected after later requests",
          "Leaks depend on what the previous user of a pooled context left behind and on which request ran in between; the scheduler decides both, the pool is made deterministic (one P, GC off during a run), and every observable field carries a per-request token so that any foreign datum is attributable.",
          "plain mode only (sync.Pool drops objects at random under -race); shapes and routes from a fixed family", "6 C12"),
